@@ -249,7 +249,7 @@ func NewTypecast(scope *types.Scope, imports util.ImportNames, t types.Type, inn
 	switch typ := util.DerefPtr(t).(type) {
 	case *types.Named:
 		// If the type is defined within the current package, or predeclared as error is.
-		if typ.Obj().Pkg() == nil || scope.Lookup(typ.Obj().Name()) != nil {
+		if typ.Obj().Pkg() == nil || scope.Lookup(typ.Obj().Name()) == typ.Obj() {
 			expr = typ.Obj().Name()
 		} else if pkgName, ok := imports.LookupName(typ.Obj().Pkg().Path()); ok {
 			expr = fmt.Sprintf("%v.%v", pkgName, typ.Obj().Name())
